@@ -182,8 +182,11 @@ func (c *StoreCfg) DrawEvent(t *rapid.T) *mocrelay.Event {
 	ev.Tags = []mocrelay.Tag{}
 
 	if ClassOf(ev.Kind) == Addressable {
-		mode := rapid.IntRange(0, 9).Draw(t, "dmode")
+		mode := rapid.IntRange(0, 10).Draw(t, "dmode")
 		switch {
+		case mode == 10:
+			// the first d tag decides, also when it has no value
+			ev.Tags = append(ev.Tags, mocrelay.Tag{"d"}, mocrelay.Tag{"d", rapid.SampledFrom(DValues).Draw(t, "d2")})
 		case mode == 0 && !c.NoNoD:
 			// no d tag
 		case mode == 1:
